@@ -6,6 +6,8 @@ package orda
 // delivery order within the bound.  C01/C02/C04 (document part), C10, C15-4.
 
 import (
+	"encoding/json"
+	"strconv"
 	"github.com/orda-io/orda/client/pkg/iface"
 	"github.com/orda-io/orda/client/pkg/model"
 	"github.com/orda-io/orda/client/pkg/vf"
@@ -75,7 +77,17 @@ func jsonDeepEq(a, b interface{}) bool {
 	case map[string]interface{}, []interface{}:
 		return false
 	}
-	return a == b
+	return vfLeaf(a) == vfLeaf(b)
+}
+
+// vfLeaf: a number is a number, whichever of Go's JSON number representations carries it.
+func vfLeaf(v interface{}) interface{} {
+	if n, ok := v.(json.Number); ok {
+		if f, err := strconv.ParseFloat(string(n), 64); err == nil {
+			return f
+		}
+	}
+	return v
 }
 
 // docInv: the invariants of A.3 that the harnesses rely on.
